@@ -1,7 +1,7 @@
 SPECIFICATION Spec
 CONSTANTS
   B = 2
-  MaxPieces = 5
+  MaxPieces = 24
   PieceLens = {2, 4, 8, 16}
   Classes = {"V2", "HY", "FH", "FHh"}
   Variant = "m_nopadlayers"
